@@ -6,15 +6,28 @@ PRINT#/WRITE#, programs through SAVE in tokenised / ASCII / protected form, memo
 BSAVE), Sessions closed and re-created on the same image ("restart": only the image survives),
 files searched by name and read back with the matching statement, and optionally the tail of the
 image torn (truncated or one bit flipped, a harness-side operation on the scratch file) between
-two Sessions.
+two Sessions.  A third of the runs ("live" histories) use the tape the way a tape is used: files are
+recorded where the head happens to be - behind a file that was just read (over whatever follows), at
+the start of a tape that a failed search has rewound, behind a SAVE that failed after its header
+had gone to the tape (unprotected SAVE of a protected program with hide_protected) - under names of
+up to 12 characters, and the session is suspended and resumed (Session.suspend / Session.resume:
+only the state file and the image survive) between two recordings, while a data file is open for
+output, or while one is open for input; then a new Session looks for every name ever written.
 
 Reference model: a list of files (name, type, contents) in tape order and a tape position (index of
 the next header ahead of the head).  A search for name N with statement S starts at the position,
 reports `Skipped.` for every file passed over and `Found.` for the first file whose name is N and
 whose type S can read; a search that finds nothing passes over every remaining file, gives Device
 Timeout (24) and leaves the tape at its start.  Reading a found file to its end leaves the head
-just behind it.  Writing happens at the end of the recorded part only (the executor reads the last
-file first when the head is elsewhere), so nothing is ever overwritten.
+just behind it.  A new Session starts at the beginning of the tape; a resumed one where the
+suspended one was.  A file is recorded at the head position and replaces whatever the model had
+from there on; what may be left of the replaced files behind the new one is "debris": a search
+that runs past the last file of the model into debris, or that matches what a failed SAVE left, is
+judged only for what it reports about the files of the model it passes first, for not crashing and
+for not leaving the device stuck; if it ends in Device Timeout the tape is at its start again.  The
+header a failed SAVE left may or may not be announced as Skipped.  By default ('at' absent) the
+executor first reads the files ahead of the head so that the recording lands behind the last file.
+Names are compared on their first eight characters, which is all a tape header holds.
 
 Oracles (all through BASIC-visible surfaces: statement output, get_variable, host files written by
 BASIC itself on a scratch disk):
@@ -49,9 +62,18 @@ Signature families (stable across seeds; run-specific values are in the detail):
   internal-error, crash:...      everything else (on the unchanged tree only crash:UnboundLocalError@basic/
                                  converter/protect.py:unprotect fires: LOAD of a protected program whose
                                  data record was torn off)
+Prefixes put in front of any of these when the files the failing search passes or reads have a history:
+  wav-image-created-in-this-session:   the WAV image did not exist when the session started
+  cas-recorded-over-used-tape:         CAS image; a file recorded right behind a file that was itself recorded
+                                       over earlier recordings (or such a file suspended while open)
+  resumed-while-recording:<image>:     the session was suspended and resumed while the tape was recording the
+                                       file (open for output) or had just recorded it
+  behind-failed-save:                  the search passes what a failed SAVE left
 
-Deliberately left out: overwriting in the middle of a tape, names longer than 8 characters or
-with trailing blanks, reading a file with a statement of another type, ^Z inside data files
+Deliberately left out: what becomes of the files behind a recording that replaced part of the tape
+(debris, see above), names with trailing blanks, names that differ only behind the eighth character,
+the contents of protected programs loaded with hide_protected beyond what they print when run,
+reading a file with a statement of another type, ^Z inside data files
 (INPUT$ stops there by specification), CR/LF framing of PRINT#/WRITE# (files written with line
 ends are read back with LINE INPUT#/INPUT# only, never compared byte for byte), the seg/offset/
 length header fields of ASCII and data files, CHAIN/RUN "CAS1:..".
@@ -69,12 +91,16 @@ from .common import execute, b, u
 NAME = 'cas'
 PROPS = ('C29',)
 RULE = ('one evaluation = one simulated tape history (write 1-4 files, restart, search and read back, '
-        'optionally tear the tail); distinct = distinct (image format, op kind, file type, payload length '
-        'class [len mod record size near 0/-1/+1, number of records], head position class, torn?) tuples; '
+        'optionally tear the tail; or a live history: record at the head position over what is there, after '
+        'failed searches and failed SAVEs, suspend/resume between and inside recordings, then look for every '
+        'name); distinct = distinct (image format, op kind, file type, payload length '
+        'class [len mod record size near 0/-1/+1, number of records], head position class, torn?, recording over '
+        'old files?, rewound?, resumed?) tuples; '
         'non-trivial = at least one file was searched for by name in a Session other than the one that wrote it')
 REAL = ['pcbasic.basic (whole package)', 'pcbasic.basic.devices.cassette (CASDevice, CassetteStream, '
         'CASBitStream, WAVBitStream)', 'pcbasic.basic.devices.disk (scratch C: used to move memory blocks)',
         'host tmpfs for the tape image']
+REAL.append('Session.suspend / Session.resume through a state file on tmpfs (pcbasic.basic.state)')
 STUB = ['wall clock (simulated)', 'interface queues (simulated, recording)',
         'the tear (truncate / bit flip of the image file between two Sessions is done by the harness)']
 ASSUMPTIONS = [
@@ -586,6 +612,9 @@ class TFile(object):
         self.junk = k == 'failsave'
         self.resumed = False     # the session was suspended and resumed while the tape was recording this file or
                                  # had just recorded it
+        self.resumed_open = False   # ... while this file was open for output
+        self.over_old = False    # recorded where the tape held earlier recordings (its end lies on old content)
+        self.behind_old = False  # recorded right behind such a file
 
     @property
     def trunk(self):
@@ -675,6 +704,7 @@ class Exec(object):
         self.pending_resumed = False   # resumed in recording mode: the next file recorded starts where the session
                                        # thinks the last one ended
         self.involved = []       # files the current tape operation passes over or reads
+        self.fresh_image = False
 
     # -- sessions ---------------------------------------------------------
 
@@ -682,6 +712,8 @@ class Exec(object):
         if self.d is None:
             spec = ('WAV:' if self.wav else 'CAS:') + self.img
             kw = {'hide_protected': True} if self.hide else {}
+            # the session will create the image
+            self.fresh_image = not os.path.exists(self.img)
             self.d = Driver(self.w, devices={'CAS1:': spec, 'C:': self.cdir}, current_device='CAS1:',
                             syntax=self.cfg.get('syntax', 'advanced'), **kw)
             self.sessions += 1
@@ -724,6 +756,7 @@ class Exec(object):
         if t.recording:
             if open_file is not None:
                 open_file.resumed = True
+                open_file.resumed_open = True
                 if self.wav:
                     # the session that is shut down completes the file on its way out, the resumed one records over
                     # that from the point of suspension; sound of different length may leave a tail behind
@@ -734,6 +767,7 @@ class Exec(object):
                     t.files[t.pos - 1].resumed = True
                 self.pending_resumed = True
         self.d = suspend_resume(d, os.path.join(self.root, 'state.pcb'))
+        self.fresh_image = False
         run.fault('suspend-resume')
 
     # -- helpers ----------------------------------------------------------
@@ -745,7 +779,15 @@ class Exec(object):
             sig, detail = self.override[0], self.override[1] + ' :: ' + detail
         res = [g for g in self.involved if g.resumed]
         junk = [g for g in self.involved if g.junk]
-        if res:
+        old = [g for g in self.involved if g.behind_old or (g.over_old and g.resumed_open)]
+        if self.wav and self.fresh_image:
+            sig = 'wav-image-created-in-this-session:' + sig
+            detail += ' :: the image did not exist when this session started'
+        elif old and not self.wav:
+            sig = 'cas-recorded-over-used-tape:' + sig
+            detail += ' :: %r recorded right behind a file that was recorded over earlier recordings (or itself recorded ' \
+                      'over them, across a suspension)' % ([g.trunk for g in old],)
+        elif res:
             sig = 'resumed-while-recording:%s:%s' % (self.cfg['image'], sig)
             detail += ' :: the session was suspended and resumed while recording (or just behind) %r' % (
                 [g.trunk for g in res],)
@@ -818,6 +860,12 @@ class Exec(object):
             return False
         return True
 
+    def place(self, f):
+        """File f is about to be recorded at the head position."""
+        t = self.tape
+        f.over_old = t.pos < len(t.files) or t.debris
+        f.behind_old = 0 < t.pos <= len(t.files) and t.files[t.pos - 1].over_old
+
     def recorded(self, f):
         """File f has been recorded at the head position: whatever the model had from there on is gone."""
         t = self.tape
@@ -866,7 +914,9 @@ class Exec(object):
         run.state(self.cfg['image'], 'failsave', fmt, r.err, t.pos, len(t.files))
         self.ex(b'CLOSE')
         self.ex(b'NEW')
-        self.recorded(TFile(op))
+        f = TFile(op)
+        self.place(f)
+        self.recorded(f)
 
     def do_write(self, op):
         t = self.tape
@@ -875,6 +925,7 @@ class Exec(object):
             return
         self.involved = []
         f = TFile(op)
+        self.place(f)
         name = b(op['name'])
         k = op['op']
         run.state(self.cfg['image'], k, f.bucket(), len(t.files), self.sessions > 1, t.pos < len(t.files), t.wound,
